@@ -1,5 +1,8 @@
 import OptiModel.Model.RayGen
 import OptiModel.Proofs.NumReal
+import OptiModel.Proofs.Launch
+import OptiModel.Proofs.LaunchEx
+import Mathlib.Tactic.NormNum
 import Mathlib.Tactic.FieldSimp
 import Mathlib.Tactic.Ring
 import Mathlib.Tactic.LinearCombination
@@ -214,5 +217,698 @@ theorem interp_clamp_left (x : ℝ) (p : ℝ × ℝ) (rest : List (ℝ × ℝ)) 
 
 /-! ### non-vacuity -/
 example : (1 - 0)*(1 - 0) + (0.5 - 0)*(0.5 - 0) + (10 - (0:ℝ))*(10 - 0) ≠ 0 := by norm_num
+
+end C03
+
+/-! # Extensions: what is launched in each accepted configuration
+
+Helper lemmas: `OptiModel/Proofs/Launch.lean`.  Throughout, `hx` says that all fields have `x = 0`
+(otherwise `get_vig_factor` raises `NotImplementedError`, see `rejected_nonsymmetric_fields`), `v` is
+the interpolated vignetting pair of the field, and `EPD`, `EPL`, `posOf`, `startOffset`, `maxField`
+are the model's functions (`Paraxial.EPD/EPL`, `surface_group.positions`, `_get_starting_z_offset`,
+`fields.max_field`). -/
+namespace C03
+open Model Launch
+
+/-- fields with a non-zero `x` are refused by every entry point -/
+theorem rejected_nonsymmetric_fields (S : RGSys ℝ) (Hx Hy Px Py : ℝ)
+    (hx : S.fields.any (fun f => !(Num.isZero f.x)) = true) :
+    generateRay S Hx Hy Px Py = .error .notImplemented ∧
+    genericLaunch S Hx Hy Px Py = .error .notImplemented :=
+  ⟨generateRay_fields_error S Hx Hy Px Py hx, by unfold genericLaunch; rw [if_pos hx]⟩
+
+/-! ## 1. object at infinity: one direction per field -/
+
+/-- **infinite_object_direction.**  Infinite object, angle fields, not telecentric.  With
+`tx = tan(radians(max_field·Hx))`, `ty = tan(radians(max_field·Hy))`, `D = offset + EPL` (what the
+code multiplies the tangents with) and `Dz = EPL − (positions[1] − offset)` (aim plane − start plane),
+*every* ray `(Px, Py)` of the field gets the direction `(−tx·D, ty·D, Dz)/‖·‖`: the right-hand sides do
+not contain `Px, Py` nor the vignetting factors.  It is a unit vector with `N > 0`.
+Guard `0 < Dz`: the start plane lies in front of the entrance pupil (for `Dz = 0` the code divides by
+`mag = |D|·√(tx²+ty²)`, which is 0 on axis: NaN direction).
+Sign convention of the code: `M/N = +ty·D/Dz` but `L/N = −tx·D/Dz`. -/
+theorem infinite_object_direction (S : RGSys ℝ) (Hx Hy Px Py : ℝ)
+    (hx : S.fields.any (fun f => !(Num.isZero f.x)) = false)
+    (hinf : S.psys.objInf = true) (hf : S.psys.fieldType = .angle) (ht : S.telecentric = false)
+    (hD : 0 < startOffset S + EPL S.psys - posOf S.psys.surfs 1) :
+    let tx := Real.tan (maxField S.fields * Hx * (Real.pi / 180))
+    let ty := Real.tan (maxField S.fields * Hy * (Real.pi / 180))
+    let D := startOffset S + EPL S.psys
+    let Dz := D - posOf S.psys.surfs 1
+    let mag := Real.sqrt ((-(tx * D))^2 + (ty * D)^2 + Dz^2)
+    ∃ r, generateRay S Hx Hy Px Py = .ok r ∧
+      r.L = -(tx * D) / mag ∧ r.M = ty * D / mag ∧ r.N = Dz / mag ∧
+      r.L^2 + r.M^2 + r.N^2 = 1 ∧ 0 < r.N := by
+  intro tx ty D Dz mag
+  have ho := rayOrigin_infinite S Hx Hy Px Py (1 - (vigFactor S.fields Hx Hy).1)
+    (1 - (vigFactor S.fields Hx Hy).2) hinf hf ht
+  have hg := generateRay_nontele_dir S Hx Hy Px Py _ _ _ (-(tx * D)) (ty * D) Dz hx ht ho
+    (by simp only [tx, D]; ring) (by simp only [ty, D]; ring) (by simp only [Dz, D]; ring)
+  obtain ⟨hm, hu, -, -, -⟩ := launch_core (-(tx * D)) (ty * D) Dz (ne_of_gt hD)
+  exact ⟨_, hg, rfl, rfl, rfl, hu, div_pos hD hm⟩
+
+/-- all rays of one field are parallel (corollary, stated directly) -/
+theorem infinite_object_direction_same (S : RGSys ℝ) (Hx Hy Px Py Px' Py' : ℝ)
+    (hx : S.fields.any (fun f => !(Num.isZero f.x)) = false)
+    (hinf : S.psys.objInf = true) (hf : S.psys.fieldType = .angle) (ht : S.telecentric = false)
+    (hD : 0 < startOffset S + EPL S.psys - posOf S.psys.surfs 1) :
+    ∃ r r', generateRay S Hx Hy Px Py = .ok r ∧ generateRay S Hx Hy Px' Py' = .ok r' ∧
+      r.L = r'.L ∧ r.M = r'.M ∧ r.N = r'.N ∧ r.z = r'.z ∧ 0 < r.N := by
+  have ho := rayOrigin_infinite S Hx Hy Px Py (1 - (vigFactor S.fields Hx Hy).1)
+    (1 - (vigFactor S.fields Hx Hy).2) hinf hf ht
+  have ho' := rayOrigin_infinite S Hx Hy Px' Py' (1 - (vigFactor S.fields Hx Hy).1)
+    (1 - (vigFactor S.fields Hx Hy).2) hinf hf ht
+  have hg := generateRay_nontele_dir S Hx Hy Px Py _ _ _ _ _ _ hx ht ho
+    (by ring : _ = -(Real.tan (maxField S.fields * Hx * (Real.pi / 180)) * (startOffset S + EPL S.psys)))
+    (by ring : _ = Real.tan (maxField S.fields * Hy * (Real.pi / 180)) * (startOffset S + EPL S.psys))
+    (by ring : _ = startOffset S + EPL S.psys - posOf S.psys.surfs 1)
+  have hg' := generateRay_nontele_dir S Hx Hy Px' Py' _ _ _ _ _ _ hx ht ho'
+    (by ring : _ = -(Real.tan (maxField S.fields * Hx * (Real.pi / 180)) * (startOffset S + EPL S.psys)))
+    (by ring : _ = Real.tan (maxField S.fields * Hy * (Real.pi / 180)) * (startOffset S + EPL S.psys))
+    (by ring : _ = startOffset S + EPL S.psys - posOf S.psys.surfs 1)
+  obtain ⟨hm, -, -, -, -⟩ := launch_core
+    (-(Real.tan (maxField S.fields * Hx * (Real.pi / 180)) * (startOffset S + EPL S.psys)))
+    (Real.tan (maxField S.fields * Hy * (Real.pi / 180)) * (startOffset S + EPL S.psys))
+    (startOffset S + EPL S.psys - posOf S.psys.surfs 1) (ne_of_gt hD)
+  exact ⟨_, _, hg, hg', rfl, rfl, rfl, rfl, div_pos hD hm⟩
+
+/-- **infinite_object_direction** for the usual layout `positions[1] = 0` (first surface at the
+origin, which is where `EPL` is measured from): the direction is `(−tx, ty, 1)/√(tx² + ty² + 1)`,
+i.e. `M/N = tan(θy)`, `L/N = −tan(θx)` with `θ = max_field·H` in degrees. -/
+theorem infinite_object_direction_tan (S : RGSys ℝ) (Hx Hy Px Py : ℝ)
+    (hx : S.fields.any (fun f => !(Num.isZero f.x)) = false)
+    (hinf : S.psys.objInf = true) (hf : S.psys.fieldType = .angle) (ht : S.telecentric = false)
+    (hp1 : posOf S.psys.surfs 1 = 0) (hD : 0 < startOffset S + EPL S.psys) :
+    let tx := Real.tan (maxField S.fields * Hx * (Real.pi / 180))
+    let ty := Real.tan (maxField S.fields * Hy * (Real.pi / 180))
+    let q := Real.sqrt (tx^2 + ty^2 + 1)
+    ∃ r, generateRay S Hx Hy Px Py = .ok r ∧
+      r.L = -tx / q ∧ r.M = ty / q ∧ r.N = 1 / q ∧ 0 < r.N ∧ r.M / r.N = ty ∧ r.L / r.N = -tx := by
+  intro tx ty q
+  have hD' : 0 < startOffset S + EPL S.psys - posOf S.psys.surfs 1 := by rw [hp1]; linarith
+  obtain ⟨r, hr, hL, hM, hN, -, hpos⟩ := infinite_object_direction S Hx Hy Px Py hx hinf hf ht hD'
+  simp only [hp1, sub_zero] at hL hM hN
+  set D := startOffset S + EPL S.psys with hDdef
+  have hq0 : 0 < tx^2 + ty^2 + 1 := by positivity
+  have hq : 0 < q := Real.sqrt_pos.mpr hq0
+  have hs : Real.sqrt ((-(tx * D))^2 + (ty * D)^2 + D^2) = D * q := by
+    rw [show (-(tx * D))^2 + (ty * D)^2 + D^2 = D^2 * (tx^2 + ty^2 + 1) by ring,
+      Real.sqrt_mul (sq_nonneg D), Real.sqrt_sq hD.le]
+  rw [hs] at hL hM hN
+  have hDne : D ≠ 0 := ne_of_gt hD
+  have hqne : q ≠ 0 := ne_of_gt hq
+  have hL2 : r.L = -(tx * D) / (D * q) := hL
+  have hM2 : r.M = ty * D / (D * q) := hM
+  have hL' : r.L = -tx / q := by rw [hL2]; field_simp
+  have hM' : r.M = ty / q := by rw [hM2]; field_simp
+  have hN' : r.N = 1 / q := by rw [hN]; field_simp
+  refine ⟨r, hr, hL', hM', hN', hpos, ?_, ?_⟩
+  · rw [hM', hN']; field_simp
+  · rw [hL', hN']; field_simp
+
+/-- **direction cosines** of a meridional field (`Hx = 0`, `|θ| < 90°`, `θ = max_field·Hy` degrees),
+layout as above: `(L, M, N) = (0, sin θ, cos θ)` for every `(Px, Py)`. -/
+theorem infinite_object_direction_cosines (S : RGSys ℝ) (Hy Px Py : ℝ)
+    (hx : S.fields.any (fun f => !(Num.isZero f.x)) = false)
+    (hinf : S.psys.objInf = true) (hf : S.psys.fieldType = .angle) (ht : S.telecentric = false)
+    (hp1 : posOf S.psys.surfs 1 = 0) (hD : 0 < startOffset S + EPL S.psys)
+    (hθ : 0 < Real.cos (maxField S.fields * Hy * (Real.pi / 180))) :
+    ∃ r, generateRay S 0 Hy Px Py = .ok r ∧ r.L = 0 ∧
+      r.M = Real.sin (maxField S.fields * Hy * (Real.pi / 180)) ∧
+      r.N = Real.cos (maxField S.fields * Hy * (Real.pi / 180)) := by
+  obtain ⟨r, hr, hL, hM, hN, -, -, -⟩ :=
+    infinite_object_direction_tan S 0 Hy Px Py hx hinf hf ht hp1 hD
+  simp only [mul_zero, zero_mul, Real.tan_zero] at hL hM hN
+  set θ := maxField S.fields * Hy * (Real.pi / 180) with hθdef
+  have hc : Real.cos θ ≠ 0 := ne_of_gt hθ
+  have hq : Real.sqrt (0^2 + (Real.tan θ)^2 + 1) = 1 / Real.cos θ := by
+    rw [Real.sqrt_eq_iff_mul_self_eq (by positivity) (by positivity), Real.tan_eq_sin_div_cos]
+    field_simp
+    linear_combination Real.sin_sq_add_cos_sq θ
+  rw [hq] at hL hM hN
+  refine ⟨r, hr, ?_, ?_, ?_⟩
+  · rw [hL]; simp
+  · rw [hM, Real.tan_eq_sin_div_cos]; field_simp
+  · rw [hN]; field_simp
+
+/-! ## 2. object at infinity: the bundle fills the vignetted entrance pupil -/
+
+/-- **infinite_object_fills_pupil.**  Same configuration.  The ray starts in the plane
+`z = positions[1] − offset` at `(Px·EPD/2·(1−vx) + tx·D, Py·EPD/2·(1−vy) − ty·D)` and after the path
+length `mag` it is at the pupil point `(Px·EPD/2·(1−vx), Py·EPD/2·(1−vy), EPL)`:
+the start points are the (vignetted) pupil shifted back along the field direction, so the bundle
+fills exactly the ellipse with half-axes `EPD/2·(1−vx)`, `EPD/2·(1−vy)` in the plane `z = EPL`. -/
+theorem infinite_object_fills_pupil (S : RGSys ℝ) (Hx Hy Px Py : ℝ)
+    (hx : S.fields.any (fun f => !(Num.isZero f.x)) = false)
+    (hinf : S.psys.objInf = true) (hf : S.psys.fieldType = .angle) (ht : S.telecentric = false)
+    (hD : startOffset S + EPL S.psys - posOf S.psys.surfs 1 ≠ 0) :
+    let v := vigFactor S.fields Hx Hy
+    let tx := Real.tan (maxField S.fields * Hx * (Real.pi / 180))
+    let ty := Real.tan (maxField S.fields * Hy * (Real.pi / 180))
+    let D := startOffset S + EPL S.psys
+    let Dz := D - posOf S.psys.surfs 1
+    let mag := Real.sqrt ((-(tx * D))^2 + (ty * D)^2 + Dz^2)
+    ∃ r, generateRay S Hx Hy Px Py = .ok r ∧ 0 < mag ∧
+      r.x = Px * EPD S.psys / 2 * (1 - v.1) + tx * D ∧
+      r.y = Py * EPD S.psys / 2 * (1 - v.2) - ty * D ∧
+      r.z = posOf S.psys.surfs 1 - startOffset S ∧
+      r.x + mag * r.L = Px * EPD S.psys / 2 * (1 - v.1) ∧
+      r.y + mag * r.M = Py * EPD S.psys / 2 * (1 - v.2) ∧
+      r.z + mag * r.N = EPL S.psys := by
+  intro v tx ty D Dz mag
+  have ho := rayOrigin_infinite S Hx Hy Px Py (1 - (vigFactor S.fields Hx Hy).1)
+    (1 - (vigFactor S.fields Hx Hy).2) hinf hf ht
+  have hg := generateRay_nontele_dir S Hx Hy Px Py _ _ _ (-(tx * D)) (ty * D) Dz hx ht ho
+    (by simp only [tx, D]; ring) (by simp only [ty, D]; ring) (by simp only [Dz, D]; ring)
+  obtain ⟨hm, -, h1, h2, h3⟩ := launch_core (-(tx * D)) (ty * D) Dz hD
+  refine ⟨_, hg, hm, ?_, ?_, ?_, ?_, ?_, ?_⟩
+  · simp only [tx, D, v]
+  · simp only [ty, D, v]; ring
+  · rfl
+  · show _ + mag * (-(tx * D) / mag) = _
+    rw [h1]; simp only [tx, D, v]; ring
+  · show _ + mag * ((ty * D) / mag) = _
+    rw [h2]; simp only [ty, D, v]; ring
+  · show _ + mag * (Dz / mag) = _
+    rw [h3]; simp only [Dz, D]; ring
+
+/-! ## 3. finite object -/
+
+/-- **generateRay_hits_pupil** (all non-telecentric configurations at once): whenever `generateRay`
+succeeds and the start plane is not the pupil plane, the direction is a unit vector and the ray
+passes through `(Px·EPD/2·(1−vx), Py·EPD/2·(1−vy), EPL)`; `(1−v)` enters exactly once. -/
+theorem generateRay_hits_pupil (S : RGSys ℝ) (Hx Hy Px Py : ℝ) (r : Ray ℝ)
+    (ht : S.telecentric = false) (h : generateRay S Hx Hy Px Py = .ok r) (hz : r.z ≠ EPL S.psys) :
+    ∃ mag, 0 < mag ∧ r.L^2 + r.M^2 + r.N^2 = 1 ∧
+      r.x + mag * r.L = Px * EPD S.psys / 2 * (1 - (vigFactor S.fields Hx Hy).1) ∧
+      r.y + mag * r.M = Py * EPD S.psys / 2 * (1 - (vigFactor S.fields Hx Hy).2) ∧
+      r.z + mag * r.N = EPL S.psys := by
+  cases hx : S.fields.any (fun f => !(Num.isZero f.x)) with
+  | true => rw [generateRay_fields_error S Hx Hy Px Py hx] at h; exact absurd h (by simp)
+  | false =>
+    cases ho : rayOrigin S Hx Hy Px Py (1 - (vigFactor S.fields Hx Hy).1)
+        (1 - (vigFactor S.fields Hx Hy).2) with
+    | error e => rw [generateRay_origin_error S Hx Hy Px Py e hx ho] at h; exact absurd h (by simp)
+    | ok o =>
+      obtain ⟨x0, y0, z0⟩ := o
+      rw [generateRay_nontele_dir S Hx Hy Px Py x0 y0 z0 _ _ _ hx ht ho rfl rfl rfl] at h
+      injection h with h
+      subst h
+      simp only at hz ⊢
+      have hc : EPL S.psys - z0 ≠ 0 := fun e => hz (by linarith)
+      obtain ⟨hm, hu, h1, h2, h3⟩ := launch_core
+        (Px * EPD S.psys * (1 - (vigFactor S.fields Hx Hy).1) / 2 - x0)
+        (Py * EPD S.psys * (1 - (vigFactor S.fields Hx Hy).2) / 2 - y0) (EPL S.psys - z0) hc
+      refine ⟨_, hm, hu, ?_, ?_, ?_⟩
+      · rw [h1]; ring
+      · rw [h2]; ring
+      · rw [h3]; ring
+
+/-- **finite_object_start_and_aim**, object-height fields: the ray starts at
+`(max_field·Hx, max_field·Hy)` (both with a plus sign) on the object surface — `z = sag + cs.z`, the
+sag being 0 for a plane and the conic sag otherwise —, its direction is the normalised difference to
+the pupil point, a unit vector, and it reaches the pupil point after `mag`.
+Guard: the object point is not in the plane `z = EPL` (there `mag` may vanish). -/
+theorem finite_object_start_and_aim_height (S : RGSys ℝ) (Hx Hy Px Py : ℝ)
+    (hx : S.fields.any (fun f => !(Num.isZero f.x)) = false)
+    (hinf : S.psys.objInf = false) (hf : S.psys.fieldType = .objectHeight) (ht : S.telecentric = false)
+    (hz : (if S.objPlane then 0 else conicSag S.objR S.objK (maxField S.fields * Hx) (maxField S.fields * Hy))
+            + posOf S.psys.surfs 0 ≠ EPL S.psys) :
+    let v := vigFactor S.fields Hx Hy
+    let x0 := maxField S.fields * Hx
+    let y0 := maxField S.fields * Hy
+    let z0 := (if S.objPlane then 0 else conicSag S.objR S.objK (maxField S.fields * Hx) (maxField S.fields * Hy))
+                + posOf S.psys.surfs 0
+    let x1 := Px * EPD S.psys / 2 * (1 - v.1)
+    let y1 := Py * EPD S.psys / 2 * (1 - v.2)
+    let z1 := EPL S.psys
+    let mag := Real.sqrt ((x1 - x0)^2 + (y1 - y0)^2 + (z1 - z0)^2)
+    ∃ r, generateRay S Hx Hy Px Py = .ok r ∧ r.x = x0 ∧ r.y = y0 ∧ r.z = z0 ∧ 0 < mag ∧
+      r.L = (x1 - x0) / mag ∧ r.M = (y1 - y0) / mag ∧ r.N = (z1 - z0) / mag ∧
+      r.L^2 + r.M^2 + r.N^2 = 1 ∧
+      r.x + mag * r.L = x1 ∧ r.y + mag * r.M = y1 ∧ r.z + mag * r.N = z1 := by
+  intro v x0 y0 z0 x1 y1 z1 mag
+  have ho := rayOrigin_finite_height S Hx Hy Px Py (1 - (vigFactor S.fields Hx Hy).1)
+    (1 - (vigFactor S.fields Hx Hy).2) hinf hf
+  have hg := generateRay_nontele_dir S Hx Hy Px Py _ _ _ (x1 - x0) (y1 - y0) (z1 - z0) hx ht ho
+    (by simp only [x1, x0, v]; ring) (by simp only [y1, y0, v]; ring) rfl
+  have hc : z1 - z0 ≠ 0 := fun e => hz (by simp only [z1, z0] at e; linarith)
+  obtain ⟨hm, hu, h1, h2, h3⟩ := launch_core (x1 - x0) (y1 - y0) (z1 - z0) hc
+  refine ⟨_, hg, rfl, rfl, rfl, hm, rfl, rfl, rfl, hu, ?_, ?_, ?_⟩
+  · show x0 + mag * ((x1 - x0) / mag) = x1
+    rw [h1]; ring
+  · show y0 + mag * ((y1 - y0) / mag) = y1
+    rw [h2]; ring
+  · show z0 + mag * ((z1 - z0) / mag) = z1
+    rw [h3]; ring
+
+/-- **finite_object_start_and_aim**, angle fields: the object point is at the object vertex plane
+`z = positions[0]`, at height `(+tan θx · d, −tan θy · d)` with `d = EPL − z` the distance to the
+entrance pupil (so that the chief ray `Px = Py = 0` has `M/N = +tan θy`, `L/N = −tan θx`: same sign
+convention as for the infinite object).  Direction, unit length and aim as before. -/
+theorem finite_object_start_and_aim_angle (S : RGSys ℝ) (Hx Hy Px Py : ℝ)
+    (hx : S.fields.any (fun f => !(Num.isZero f.x)) = false)
+    (hinf : S.psys.objInf = false) (hf : S.psys.fieldType = .angle) (ht : S.telecentric = false)
+    (hz : posOf S.psys.surfs 0 ≠ EPL S.psys) :
+    let v := vigFactor S.fields Hx Hy
+    let d := EPL S.psys - posOf S.psys.surfs 0
+    let x0 := Real.tan (maxField S.fields * Hx * (Real.pi / 180)) * d
+    let y0 := -Real.tan (maxField S.fields * Hy * (Real.pi / 180)) * d
+    let z0 := posOf S.psys.surfs 0
+    let x1 := Px * EPD S.psys / 2 * (1 - v.1)
+    let y1 := Py * EPD S.psys / 2 * (1 - v.2)
+    let z1 := EPL S.psys
+    let mag := Real.sqrt ((x1 - x0)^2 + (y1 - y0)^2 + (z1 - z0)^2)
+    ∃ r, generateRay S Hx Hy Px Py = .ok r ∧ r.x = x0 ∧ r.y = y0 ∧ r.z = z0 ∧ 0 < mag ∧
+      r.L = (x1 - x0) / mag ∧ r.M = (y1 - y0) / mag ∧ r.N = (z1 - z0) / mag ∧
+      r.L^2 + r.M^2 + r.N^2 = 1 ∧
+      r.x + mag * r.L = x1 ∧ r.y + mag * r.M = y1 ∧ r.z + mag * r.N = z1 := by
+  intro v d x0 y0 z0 x1 y1 z1 mag
+  have ho := rayOrigin_finite_angle S Hx Hy Px Py (1 - (vigFactor S.fields Hx Hy).1)
+    (1 - (vigFactor S.fields Hx Hy).2) hinf hf
+  have hg := generateRay_nontele_dir S Hx Hy Px Py _ _ _ (x1 - x0) (y1 - y0) (z1 - z0) hx ht ho
+    (by simp only [x1, x0, d, v]; ring) (by simp only [y1, y0, d, v]; ring) rfl
+  have hc : z1 - z0 ≠ 0 := fun e => hz (by simp only [z1, z0] at e; linarith)
+  obtain ⟨hm, hu, h1, h2, h3⟩ := launch_core (x1 - x0) (y1 - y0) (z1 - z0) hc
+  refine ⟨_, hg, rfl, rfl, rfl, hm, rfl, rfl, rfl, hu, ?_, ?_, ?_⟩
+  · show x0 + mag * ((x1 - x0) / mag) = x1
+    rw [h1]; ring
+  · show y0 + mag * ((y1 - y0) / mag) = y1
+    rw [h2]; ring
+  · show z0 + mag * ((z1 - z0) / mag) = z1
+    rw [h3]; ring
+
+/-- chief ray of a finite object with angle fields: `M/N = tan θy`, `L/N = −tan θx` -/
+theorem finite_object_angle_chief (S : RGSys ℝ) (Hx Hy : ℝ)
+    (hx : S.fields.any (fun f => !(Num.isZero f.x)) = false)
+    (hinf : S.psys.objInf = false) (hf : S.psys.fieldType = .angle) (ht : S.telecentric = false)
+    (hz : posOf S.psys.surfs 0 ≠ EPL S.psys) :
+    ∃ r, generateRay S Hx Hy 0 0 = .ok r ∧
+      r.M / r.N = Real.tan (maxField S.fields * Hy * (Real.pi / 180)) ∧
+      r.L / r.N = -Real.tan (maxField S.fields * Hx * (Real.pi / 180)) := by
+  obtain ⟨r, hr, -, -, -, hm, hL, hM, hN, -, -, -, -⟩ :=
+    finite_object_start_and_aim_angle S Hx Hy 0 0 hx hinf hf ht hz
+  have hd : EPL S.psys - posOf S.psys.surfs 0 ≠ 0 := fun e => hz (by linarith)
+  refine ⟨r, hr, ?_, ?_⟩
+  · rw [hM, hN]; field_simp; ring
+  · rw [hL, hN]; field_simp; ring
+
+/-! ## 4. telecentric object space -/
+
+/-- **telecentric_object_space.**  Finite object, object-height fields, aperture given as object
+NA `s = aperture.value`, telecentric flag set.  What the code does: the object point is as for
+object-height fields; the aim point is `(Px·(1−vx), Py·(1−vy), √(1−s²)/s)` *relative to the object
+point* — pupil coordinates are used as lengths, no `EPD`, no `EPL`.  Hence the direction
+`(Px(1−vx), Py(1−vy), √(1−s²)/s)/‖·‖` does not depend on the field point at all (only through the
+vignetting factors): every field sends the same cone, centred on the axis direction.
+Guards `0 < s < 1` (`s = 0`: division by zero; `s ≥ 1`: `√` of a non-positive number). -/
+theorem telecentric_object_space (S : RGSys ℝ) (Hx Hy Px Py : ℝ)
+    (hx : S.fields.any (fun f => !(Num.isZero f.x)) = false)
+    (hinf : S.psys.objInf = false) (hf : S.psys.fieldType = .objectHeight) (ht : S.telecentric = true)
+    (hap : S.psys.apType = .objectNA) (hs0 : 0 < S.psys.apValue) (hs1 : S.psys.apValue < 1) :
+    let v := vigFactor S.fields Hx Hy
+    let a := Px * (1 - v.1)
+    let b := Py * (1 - v.2)
+    let c := Real.sqrt (1 - S.psys.apValue * S.psys.apValue) / S.psys.apValue
+    let mag := Real.sqrt (a^2 + b^2 + c^2)
+    ∃ r, generateRay S Hx Hy Px Py = .ok r ∧
+      r.x = maxField S.fields * Hx ∧ r.y = maxField S.fields * Hy ∧
+      r.z = (if S.objPlane then 0 else conicSag S.objR S.objK (maxField S.fields * Hx) (maxField S.fields * Hy))
+              + posOf S.psys.surfs 0 ∧
+      0 < c ∧ 0 < mag ∧ r.L = a / mag ∧ r.M = b / mag ∧ r.N = c / mag ∧
+      r.L^2 + r.M^2 + r.N^2 = 1 ∧ 0 < r.N := by
+  intro v a b c mag
+  have ho := rayOrigin_finite_height S Hx Hy Px Py (1 - (vigFactor S.fields Hx Hy).1)
+    (1 - (vigFactor S.fields Hx Hy).2) hinf hf
+  have hg := generateRay_tele_dir S Hx Hy Px Py _ _ _ a b c hx ht hf hap ho
+    (by simp only [a, v]; ring) (by simp only [b, v]; ring) (by simp only [c]; ring)
+  have h1 : 0 < 1 - S.psys.apValue * S.psys.apValue := by nlinarith
+  have hc : 0 < c := div_pos (Real.sqrt_pos.mpr h1) hs0
+  obtain ⟨hm, hu, -, -, -⟩ := launch_core a b c (ne_of_gt hc)
+  exact ⟨_, hg, rfl, rfl, rfl, hc, hm, rfl, rfl, rfl, hu, div_pos hc hm⟩
+
+/-- the telecentric chief ray (`Px = Py = 0`) of every field is parallel to the axis -/
+theorem telecentric_chief_parallel (S : RGSys ℝ) (Hx Hy : ℝ)
+    (hx : S.fields.any (fun f => !(Num.isZero f.x)) = false)
+    (hinf : S.psys.objInf = false) (hf : S.psys.fieldType = .objectHeight) (ht : S.telecentric = true)
+    (hap : S.psys.apType = .objectNA) (hs0 : 0 < S.psys.apValue) (hs1 : S.psys.apValue < 1) :
+    ∃ r, generateRay S Hx Hy 0 0 = .ok r ∧ r.L = 0 ∧ r.M = 0 ∧ r.N = 1 := by
+  obtain ⟨r, hr, -, -, -, hc, -, hL, hM, hN, -, -⟩ :=
+    telecentric_object_space S Hx Hy 0 0 hx hinf hf ht hap hs0 hs1
+  refine ⟨r, hr, ?_, ?_, ?_⟩
+  · rw [hL]; simp
+  · rw [hM]; simp
+  · rw [hN]
+    simp only [zero_mul, ne_eq, OfNat.ofNat_ne_zero, not_false_eq_true, zero_pow, zero_add]
+    rw [Real.sqrt_sq hc.le, div_self (ne_of_gt hc)]
+
+/-- the marginal cone has the stated numerical aperture: for a pupil point on the unit circle and a
+field without vignetting, `sin θ = √(L² + M²) = s`, i.e. `L² + M² = s²` -/
+theorem telecentric_na (S : RGSys ℝ) (Hx Hy Px Py : ℝ)
+    (hx : S.fields.any (fun f => !(Num.isZero f.x)) = false)
+    (hinf : S.psys.objInf = false) (hf : S.psys.fieldType = .objectHeight) (ht : S.telecentric = true)
+    (hap : S.psys.apType = .objectNA) (hs0 : 0 < S.psys.apValue) (hs1 : S.psys.apValue < 1)
+    (hP : Px^2 + Py^2 = 1) (hv : vigFactor S.fields Hx Hy = (0, 0)) :
+    ∃ r, generateRay S Hx Hy Px Py = .ok r ∧ r.L^2 + r.M^2 = S.psys.apValue^2 ∧
+      r.N^2 = 1 - S.psys.apValue^2 := by
+  obtain ⟨r, hr, -, -, -, hc, hm, hL, hM, hN, -, -⟩ :=
+    telecentric_object_space S Hx Hy Px Py hx hinf hf ht hap hs0 hs1
+  rw [hv] at hL hM hN hm
+  simp only [sub_zero, mul_one] at hL hM hN hm
+  set s := S.psys.apValue with hsdef
+  have h1 : 0 < 1 - s * s := by nlinarith
+  set c := Real.sqrt (1 - s * s) / s with hcdef
+  have hc2 : c^2 = (1 - s * s) / s^2 := by
+    rw [hcdef, div_pow, Real.sq_sqrt h1.le]
+  set mag := Real.sqrt (Px^2 + Py^2 + c^2) with hmag
+  have hmm : mag^2 = Px^2 + Py^2 + c^2 := Real.sq_sqrt (by positivity)
+  have hsne : s ≠ 0 := ne_of_gt hs0
+  have hmne : mag ≠ 0 := ne_of_gt hm
+  have hm2 : mag^2 = 1 / s^2 := by
+    rw [hmm, hP, hc2]; field_simp; ring
+  refine ⟨r, hr, ?_, ?_⟩
+  · rw [hL, hM, div_pow, div_pow, ← add_div, hP, hm2]; field_simp
+  · rw [hN, div_pow, hm2, hc2]; field_simp
+
+/-! ## 5. vignetting factors: sorting, end points, linear interpolation, hull, order independence -/
+
+/-- **sortBy_perm**: the insertion sort only rearranges -/
+theorem sortBy_perm {β : Type} (l : List (ℝ × β)) : (sortBy l).Perm l := sortBy_perm' l
+
+/-- **sortBy_sorted**: its result is sorted by the key; strictly if the keys are distinct -/
+theorem sortBy_sorted {β : Type} (l : List (ℝ × β)) :
+    (sortBy l).Pairwise (fun a b => a.1 ≤ b.1) ∧
+    ((l.map (·.1)).Nodup → (sortBy l).Pairwise (fun a b => a.1 < b.1)) :=
+  ⟨sortBy_sorted' l, sortBy_strict l⟩
+
+/-- **sortBy_order_independent**: with distinct keys the result does not depend on the order in
+which the entries were given (`np.argsort` on distinct keys).  With equal keys NumPy's default
+(unstable) sort gives no such guarantee; the model's insertion sort would not either. -/
+theorem sortBy_order_independent {β : Type} (l₁ l₂ : List (ℝ × β)) (hp : l₁.Perm l₂)
+    (hd : (l₁.map (·.1)).Nodup) : sortBy l₁ = sortBy l₂ := sortBy_eq_of_perm l₁ l₂ hp hd
+
+/-- **vigFactor_order_independent**: the vignetting factors of a field point do not depend on the
+order in which the fields were added, provided their `y` are distinct -/
+theorem vigFactor_order_independent (fs₁ fs₂ : List (FieldRec ℝ)) (Hx Hy : ℝ) (hp : fs₁.Perm fs₂)
+    (hd : (fs₁.map (·.y)).Nodup) : vigFactor fs₁ Hx Hy = vigFactor fs₂ Hx Hy := by
+  rw [vigFactor_eq, vigFactor_eq, vigKnots_perm fs₁ fs₂ _ hp hd, vigKnots_perm fs₁ fs₂ _ hp hd]
+
+/-- **vigFactor_endpoints**: at a defined field — normalised radius `√(Hx²+Hy²) = y_f / max_y` —
+the factors are exactly that field's `(vx, vy)`.  Guards: distinct `y`, positive largest `y`.
+(The radius is non-negative, so a field with `y_f < 0` is never hit by any `(Hx, Hy)`.) -/
+theorem vigFactor_endpoints (fs : List (FieldRec ℝ)) (f : FieldRec ℝ) (Hx Hy : ℝ) (hf : f ∈ fs)
+    (hd : (fs.map (·.y)).Nodup) (hm : 0 < npMaxL (fs.map (·.y)))
+    (hh : Real.sqrt (Hx * Hx + Hy * Hy) = f.y / npMaxL (fs.map (·.y))) :
+    vigFactor fs Hx Hy = (f.vx, f.vy) := by
+  rw [vigFactor_eq, hh]
+  have h1 := interp_at_knot _ (vigKnots_strict fs Prod.fst hd hm) _ (vigKnots_mem fs Prod.fst f hf (ne_of_gt hm))
+  have h2 := interp_at_knot _ (vigKnots_strict fs Prod.snd hd hm) _ (vigKnots_mem fs Prod.snd f hf (ne_of_gt hm))
+  simp only at h1 h2
+  rw [h1, h2]
+
+/-- the same at the field's own normalised coordinates `(0, y_f / max_y)`, `y_f ≥ 0` -/
+theorem vigFactor_at_field (fs : List (FieldRec ℝ)) (f : FieldRec ℝ) (hf : f ∈ fs)
+    (hd : (fs.map (·.y)).Nodup) (hm : 0 < npMaxL (fs.map (·.y))) (hy : 0 ≤ f.y) :
+    vigFactor fs 0 (f.y / npMaxL (fs.map (·.y))) = (f.vx, f.vy) := by
+  apply vigFactor_endpoints fs f _ _ hf hd hm
+  rw [mul_zero, zero_add, Real.sqrt_mul_self (div_nonneg hy hm.le)]
+
+/-- **vigFactor_linear**: between two neighbouring defined fields `f`, `g` (no defined field has its
+`y` strictly between theirs) both factors are the linear interpolation in the normalised radius `h`:
+`v = v_f + t·(v_g − v_f)`, `t = (h − h_f)/(h_g − h_f)`. -/
+theorem vigFactor_linear (fs : List (FieldRec ℝ)) (f g : FieldRec ℝ) (Hx Hy : ℝ)
+    (hf : f ∈ fs) (hg : g ∈ fs) (hd : (fs.map (·.y)).Nodup) (hm : 0 < npMaxL (fs.map (·.y)))
+    (hfg : f.y < g.y) (hno : ∀ e ∈ fs, ¬ (f.y < e.y ∧ e.y < g.y))
+    (h1 : f.y / npMaxL (fs.map (·.y)) ≤ Real.sqrt (Hx * Hx + Hy * Hy))
+    (h2 : Real.sqrt (Hx * Hx + Hy * Hy) ≤ g.y / npMaxL (fs.map (·.y))) :
+    let m := npMaxL (fs.map (·.y))
+    let t := (Real.sqrt (Hx * Hx + Hy * Hy) - f.y / m) / (g.y / m - f.y / m)
+    vigFactor fs Hx Hy = (f.vx + t * (g.vx - f.vx), f.vy + t * (g.vy - f.vy)) ∧ 0 ≤ t ∧ t ≤ 1 := by
+  intro m t
+  have hmne : m ≠ 0 := ne_of_gt hm
+  have hkeys : f.y / m < g.y / m := div_lt_div_of_pos_right hfg hm
+  have hnone : ∀ sel : ℝ × ℝ → ℝ, ∀ r ∈ vigKnots fs sel, ¬ (f.y / m < r.1 ∧ r.1 < g.y / m) := by
+    intro sel r hr ⟨ha, hb⟩
+    obtain ⟨e, he, -, hk⟩ := vigKnots_value fs sel r hr
+    rw [if_neg hmne] at hk
+    rw [hk] at ha hb
+    exact hno e he ⟨(div_lt_div_iff_of_pos_right hm).mp ha, (div_lt_div_iff_of_pos_right hm).mp hb⟩
+  have e1 := interp_between_closed (Real.sqrt (Hx * Hx + Hy * Hy)) (f.y / m, f.vx) (g.y / m, g.vx)
+    (vigKnots fs Prod.fst) (vigKnots_strict fs Prod.fst hd hm) (vigKnots_mem fs Prod.fst f hf hmne)
+    (vigKnots_mem fs Prod.fst g hg hmne) hkeys (hnone Prod.fst) h1 h2
+  have e2 := interp_between_closed (Real.sqrt (Hx * Hx + Hy * Hy)) (f.y / m, f.vy) (g.y / m, g.vy)
+    (vigKnots fs Prod.snd) (vigKnots_strict fs Prod.snd hd hm) (vigKnots_mem fs Prod.snd f hf hmne)
+    (vigKnots_mem fs Prod.snd g hg hmne) hkeys (hnone Prod.snd) h1 h2
+  simp only at e1 e2
+  have hpos : 0 < g.y / m - f.y / m := by linarith
+  refine ⟨?_, div_nonneg (by linarith) hpos.le, (div_le_one hpos).mpr (by linarith)⟩
+  rw [vigFactor_eq, e1, e2]
+
+/-- **vigFactor_in_hull**: both interpolated factors lie between the smallest and the largest
+factor of the defined fields — for *every* non-empty field list and every `(Hx, Hy)` (no ordering or
+distinctness needed: the hull property survives clamping, `max_y = 0`, even unsorted knots). -/
+theorem vigFactor_in_hull (fs : List (FieldRec ℝ)) (Hx Hy lo hi : ℝ) (hne : fs ≠ [])
+    (hvx : ∀ f ∈ fs, lo ≤ f.vx ∧ f.vx ≤ hi) (hvy : ∀ f ∈ fs, lo ≤ f.vy ∧ f.vy ≤ hi) :
+    (lo ≤ (vigFactor fs Hx Hy).1 ∧ (vigFactor fs Hx Hy).1 ≤ hi) ∧
+    (lo ≤ (vigFactor fs Hx Hy).2 ∧ (vigFactor fs Hx Hy).2 ≤ hi) := by
+  rw [vigFactor_eq]
+  constructor
+  · apply interp_hull _ lo hi _ (vigKnots_ne_nil fs _ hne)
+    intro p hp
+    obtain ⟨f, hf, hv, -⟩ := vigKnots_value fs _ p hp
+    rw [hv]; exact hvx f hf
+  · apply interp_hull _ lo hi _ (vigKnots_ne_nil fs _ hne)
+    intro p hp
+    obtain ⟨f, hf, hv, -⟩ := vigKnots_value fs _ p hp
+    rw [hv]; exact hvy f hf
+
+/-- factors in `[0,1]` for all defined fields ⇒ in `[0,1]` everywhere, so the pupil only shrinks -/
+theorem vigFactor_unit_interval (fs : List (FieldRec ℝ)) (Hx Hy : ℝ) (hne : fs ≠ [])
+    (hv : ∀ f ∈ fs, (0 ≤ f.vx ∧ f.vx ≤ 1) ∧ (0 ≤ f.vy ∧ f.vy ≤ 1)) (P : ℝ) :
+    |P * (1 - (vigFactor fs Hx Hy).1)| ≤ |P| ∧ |P * (1 - (vigFactor fs Hx Hy).2)| ≤ |P| := by
+  obtain ⟨h1, h2⟩ := vigFactor_in_hull fs Hx Hy 0 1 hne (fun f hf => (hv f hf).1) (fun f hf => (hv f hf).2)
+  exact ⟨vig_only_shrinks P _ h1.1 h1.2, vig_only_shrinks P _ h2.1 h2.2⟩
+
+
+/-- **vigFactor_beyond_edge** (clamping): at and beyond the largest defined field (`h ≥ 1`) the
+factors are those of the field with the largest `y` -/
+theorem vigFactor_beyond_edge (fs : List (FieldRec ℝ)) (g : FieldRec ℝ) (Hx Hy : ℝ) (hg : g ∈ fs)
+    (hd : (fs.map (·.y)).Nodup) (hm : 0 < npMaxL (fs.map (·.y))) (hgy : g.y = npMaxL (fs.map (·.y)))
+    (hh : 1 ≤ Real.sqrt (Hx * Hx + Hy * Hy)) : vigFactor fs Hx Hy = (g.vx, g.vy) := by
+  have hmne := ne_of_gt hm
+  have hmax : ∀ sel : ℝ × ℝ → ℝ, ∀ r ∈ vigKnots fs sel, r.1 ≤ g.y / npMaxL (fs.map (·.y)) := by
+    intro sel r hr
+    obtain ⟨e, he, -, hk⟩ := vigKnots_value fs sel r hr
+    rw [if_neg hmne] at hk
+    rw [hk]
+    exact div_le_div_of_nonneg_right (hgy ▸ npMaxL_ge _ _ (List.mem_map.mpr ⟨e, he, rfl⟩)) hm.le
+  have hx : g.y / npMaxL (fs.map (·.y)) ≤ Real.sqrt (Hx * Hx + Hy * Hy) := by
+    rw [hgy, div_self hmne]; exact hh
+  rw [vigFactor_eq,
+    interp_clamp_right _ (g.y / npMaxL (fs.map (·.y)), g.vx) _ (vigKnots_strict fs Prod.fst hd hm)
+      (vigKnots_mem fs Prod.fst g hg hmne) (hmax Prod.fst) hx,
+    interp_clamp_right _ (g.y / npMaxL (fs.map (·.y)), g.vy) _ (vigKnots_strict fs Prod.snd hd hm)
+      (vigKnots_mem fs Prod.snd g hg hmne) (hmax Prod.snd) hx]
+
+/-- **vigFactor_below_first** (clamping): when no field is defined on axis, every field point inside
+the smallest defined field gets that field's factors -/
+theorem vigFactor_below_first (fs : List (FieldRec ℝ)) (f : FieldRec ℝ) (Hx Hy : ℝ) (hf : f ∈ fs)
+    (hd : (fs.map (·.y)).Nodup) (hm : 0 < npMaxL (fs.map (·.y))) (hmin : ∀ e ∈ fs, f.y ≤ e.y)
+    (hh : Real.sqrt (Hx * Hx + Hy * Hy) ≤ f.y / npMaxL (fs.map (·.y))) :
+    vigFactor fs Hx Hy = (f.vx, f.vy) := by
+  have hmne := ne_of_gt hm
+  have hmin' : ∀ sel : ℝ × ℝ → ℝ, ∀ r ∈ vigKnots fs sel, f.y / npMaxL (fs.map (·.y)) ≤ r.1 := by
+    intro sel r hr
+    obtain ⟨e, he, -, hk⟩ := vigKnots_value fs sel r hr
+    rw [if_neg hmne] at hk
+    rw [hk]
+    exact div_le_div_of_nonneg_right (hmin e he) hm.le
+  rw [vigFactor_eq,
+    interp_clamp_left' _ (f.y / npMaxL (fs.map (·.y)), f.vx) _ (vigKnots_strict fs Prod.fst hd hm)
+      (vigKnots_mem fs Prod.fst f hf hmne) (hmin' Prod.fst) hh,
+    interp_clamp_left' _ (f.y / npMaxL (fs.map (·.y)), f.vy) _ (vigKnots_strict fs Prod.snd hd hm)
+      (vigKnots_mem fs Prod.snd f hf hmne) (hmin' Prod.snd) hh]
+
+/-- a single field (e.g. only the on-axis field, `max_y = 0`): its factors everywhere -/
+theorem vigFactor_single_field (f : FieldRec ℝ) (Hx Hy : ℝ) : vigFactor [f] Hx Hy = (f.vx, f.vy) := by
+  rw [vigFactor_eq]
+  simp [vigKnots, sortBy, insertBy, interp]
+
+/-! ## 6. how often `(1 − v)` is applied by each entry point -/
+
+/-- `trace_generic` is `generate_rays` on pupil coordinates already multiplied by `(1 − v)` (also in
+the error cases) -/
+theorem genericLaunch_eq (S : RGSys ℝ) (Hx Hy Px Py : ℝ) :
+    genericLaunch S Hx Hy Px Py =
+      generateRay S Hx Hy (Px * (1 - (vigFactor S.fields Hx Hy).1)) (Py * (1 - (vigFactor S.fields Hx Hy).2)) := by
+  unfold genericLaunch
+  cases hx : S.fields.any (fun f => !(Num.isZero f.x)) with
+  | true => rw [if_pos rfl, generateRay_fields_error S Hx Hy _ _ hx]
+  | false => simp only [Bool.false_eq_true, if_false]
+
+theorem vig_shrinks_twice (P v : ℝ) (h0 : 0 ≤ v) (h1 : v ≤ 1) : |P * (1 - v)^2| ≤ |P| := by
+  rw [sq, ← mul_assoc]
+  exact le_trans (vig_only_shrinks _ v h0 h1) (vig_only_shrinks P v h0 h1)
+
+theorem vig_shrinks_thrice (P v : ℝ) (h0 : 0 ≤ v) (h1 : v ≤ 1) : |P * (1 - v)^3| ≤ |P| := by
+  rw [show P * (1 - v)^3 = P * (1 - v)^2 * (1 - v) by ring]
+  exact le_trans (vig_only_shrinks _ v h0 h1) (vig_shrinks_twice P v h0 h1)
+
+/-- **genericLaunch_scaling.**  Pupil point hit in the plane `z = EPL`, in units of `EPD/2`, for a
+requested normalised pupil coordinate `(Px, Py)` (non-telecentric, start plane ≠ pupil plane):
+* `generate_rays`      : `(Px·(1−vx),  Py·(1−vy))`   — `generateRay_hits_pupil`;
+* `Optic.trace_generic`: `(Px·(1−vx)², Py·(1−vy)²)`  — this theorem;
+* `Optic.trace` with a named distribution: `(px·(1−vx)³, py·(1−vy)³)` for the raw distribution point
+  `(px, py)` — `traceLaunch_scaling`.
+In each case, for factors in `[0,1]`, `|launched| ≤ |requested|`. -/
+theorem genericLaunch_scaling (S : RGSys ℝ) (Hx Hy Px Py : ℝ) (r : Ray ℝ)
+    (ht : S.telecentric = false) (h : genericLaunch S Hx Hy Px Py = .ok r) (hz : r.z ≠ EPL S.psys) :
+    let v := vigFactor S.fields Hx Hy
+    (∃ mag, 0 < mag ∧ r.L^2 + r.M^2 + r.N^2 = 1 ∧
+      r.x + mag * r.L = (Px * (1 - v.1)^2) * (EPD S.psys / 2) ∧
+      r.y + mag * r.M = (Py * (1 - v.2)^2) * (EPD S.psys / 2) ∧
+      r.z + mag * r.N = EPL S.psys) ∧
+    (0 ≤ v.1 → v.1 ≤ 1 → |Px * (1 - v.1)^2| ≤ |Px|) ∧
+    (0 ≤ v.2 → v.2 ≤ 1 → |Py * (1 - v.2)^2| ≤ |Py|) := by
+  intro v
+  rw [genericLaunch_eq] at h
+  obtain ⟨mag, hm, hu, h1, h2, h3⟩ := generateRay_hits_pupil S Hx Hy _ _ r ht h hz
+  refine ⟨⟨mag, hm, hu, ?_, ?_, h3⟩, vig_shrinks_twice Px v.1, vig_shrinks_twice Py v.2⟩
+  · rw [h1]; ring
+  · rw [h2]; ring
+
+/-- the same for `Optic.trace` with a named distribution (`Launch.traceLaunch`, raw distribution
+point `(px, py)` as produced by the model's `dist*`): third power -/
+theorem traceLaunch_scaling (S : RGSys ℝ) (Hx Hy px py : ℝ) (r : Ray ℝ)
+    (ht : S.telecentric = false) (h : traceLaunch S Hx Hy px py = .ok r) (hz : r.z ≠ EPL S.psys) :
+    let v := vigFactor S.fields Hx Hy
+    (∃ mag, 0 < mag ∧ r.L^2 + r.M^2 + r.N^2 = 1 ∧
+      r.x + mag * r.L = (px * (1 - v.1)^3) * (EPD S.psys / 2) ∧
+      r.y + mag * r.M = (py * (1 - v.2)^3) * (EPD S.psys / 2) ∧
+      r.z + mag * r.N = EPL S.psys) ∧
+    (0 ≤ v.1 → v.1 ≤ 1 → |px * (1 - v.1)^3| ≤ |px|) ∧
+    (0 ≤ v.2 → v.2 ≤ 1 → |py * (1 - v.2)^3| ≤ |py|) := by
+  intro v
+  unfold traceLaunch at h
+  obtain ⟨mag, hm, hu, h1, h2, h3⟩ := generateRay_hits_pupil S Hx Hy _ _ r ht h hz
+  refine ⟨⟨mag, hm, hu, ?_, ?_, h3⟩, vig_shrinks_thrice px v.1, vig_shrinks_thrice py v.2⟩
+  · rw [h1]; ring
+  · rw [h2]; ring
+
+/-- `trace` on the raw point = `trace_generic` on the point scaled once = `generate_rays` on the
+point scaled twice -/
+theorem traceLaunch_eq (S : RGSys ℝ) (Hx Hy px py : ℝ) :
+    traceLaunch S Hx Hy px py =
+      genericLaunch S Hx Hy (px * (1 - (vigFactor S.fields Hx Hy).1)) (py * (1 - (vigFactor S.fields Hx Hy).2)) := by
+  rw [genericLaunch_eq]; rfl
+
+/-! ## non-vacuity of the extensions (concrete systems: `Proofs/LaunchEx.lean`) -/
+
+/-- 1. a 5°/10° field of the infinite-object system, pupil point (0.3, −0.4) -/
+example := infinite_object_direction exInf 0.5 1 0.3 (-0.4) exhx rfl rfl rfl
+  (by rw [exInfD, exInfPos1]; norm_num)
+example := infinite_object_direction_same exInf 0.5 1 0.3 (-0.4) (-1) 0 exhx rfl rfl rfl
+  (by rw [exInfD, exInfPos1]; norm_num)
+example := infinite_object_direction_tan exInf 0.5 1 0.3 (-0.4) exhx rfl rfl rfl exInfPos1
+  (by rw [exInfD]; norm_num)
+/-- the 10° field: direction `(0, sin 10°, cos 10°)` -/
+example : ∃ r, generateRay exInf 0 1 0.3 (-0.4) = .ok r ∧ r.L = 0 ∧
+    r.M = Real.sin (10 * 1 * (Real.pi / 180)) ∧ r.N = Real.cos (10 * 1 * (Real.pi / 180)) := by
+  have := infinite_object_direction_cosines exInf 1 0.3 (-0.4) exhx rfl rfl rfl exInfPos1
+    (by rw [exInfD]; norm_num)
+    (by
+      apply Real.cos_pos_of_mem_Ioo
+      show -(Real.pi/2) < maxField exFields * 1 * (Real.pi / 180) ∧ maxField exFields * 1 * (Real.pi / 180) < Real.pi / 2
+      rw [exMaxField]
+      constructor <;> nlinarith [Real.pi_pos])
+  rw [show maxField exInf.fields = 10 from exMaxField] at this
+  exact this
+/-- 2. -/
+example := infinite_object_fills_pupil exInf 0.5 1 0.3 (-0.4) exhx rfl rfl rfl
+  (by rw [exInfD, exInfPos1]; norm_num)
+/-- 3. -/
+example := finite_object_start_and_aim_height exFinH 0.5 1 0.3 (-0.4) exhx rfl rfl rfl
+  (by rw [exFinHEPL]; show (0:ℝ) + posOf (exSurfs (-100)) 0 ≠ 0; rw [exPos0]; norm_num)
+example := finite_object_start_and_aim_angle exFinA 0.5 1 0.3 (-0.4) exhx rfl rfl rfl
+  (by rw [exFinAEPL]; show posOf (exSurfs (-100)) 0 ≠ 0; rw [exPos0]; norm_num)
+example := finite_object_angle_chief exFinA 0.5 1 exhx rfl rfl rfl
+  (by rw [exFinAEPL]; show posOf (exSurfs (-100)) 0 ≠ 0; rw [exPos0]; norm_num)
+/-- 4. -/
+example := telecentric_object_space exTele 0.5 1 0.3 (-0.4) exhx rfl rfl rfl rfl
+  (by show (0:ℝ) < 0.1; norm_num) (by show (0.1:ℝ) < 1; norm_num)
+example := telecentric_chief_parallel exTele 0.5 1 exhx rfl rfl rfl rfl
+  (by show (0:ℝ) < 0.1; norm_num) (by show (0.1:ℝ) < 1; norm_num)
+/-- at the edge field `(Hx, Hy) = (0, 1)` and at `(0.6, 0.8)`: the edge field's factors -/
+example : vigFactor exFields 0 1 = (0.1, 0.2) := by
+  have := vigFactor_at_field exFields ⟨0, 10, 0.1, 0.2⟩ exField1 exNodup exMaxPos (by norm_num)
+  rw [exMaxY] at this
+  simpa using this
+example : vigFactor exFields 0.6 0.8 = (0.1, 0.2) :=
+  vigFactor_endpoints exFields ⟨0, 10, 0.1, 0.2⟩ 0.6 0.8 exField1 exNodup exMaxPos (by
+    rw [exMaxY, show (0.6 * 0.6 + 0.8 * 0.8 : ℝ) = 1 by norm_num, Real.sqrt_one]; norm_num)
+/-- half-way between the two fields: half the edge factors -/
+example : vigFactor exFields 0.3 0.4 = (0.05, 0.1) := by
+  have := (vigFactor_linear exFields ⟨0, 0, 0, 0⟩ ⟨0, 10, 0.1, 0.2⟩ 0.3 0.4 exField0 exField1 exNodup exMaxPos
+    (by norm_num) (by simp [exFields])
+    (by rw [exMaxY, exSqrt]; norm_num) (by rw [exMaxY, exSqrt]; norm_num)).1
+  rw [this, exMaxY, exSqrt]; norm_num
+/-- the order in which the two fields were added does not matter -/
+example (Hx Hy : ℝ) : vigFactor exFields Hx Hy = vigFactor [⟨0, 10, 0.1, 0.2⟩, ⟨0, 0, 0, 0⟩] Hx Hy :=
+  vigFactor_order_independent _ _ Hx Hy (List.Perm.swap _ _ _) exNodup
+example (Hx Hy : ℝ) := vigFactor_in_hull exFields Hx Hy 0 0.2 (by simp [exFields])
+  (by simp [exFields]; norm_num) (by simp [exFields]; norm_num)
+example (Hx Hy P : ℝ) := vigFactor_unit_interval exFields Hx Hy (by simp [exFields])
+  (by simp [exFields]; norm_num) P
+example : (sortBy [((3:ℝ), 'a'), (1, 'b'), (2, 'c')]).Perm [(3, 'a'), (1, 'b'), (2, 'c')] := sortBy_perm _
+example : (sortBy [((3:ℝ), 'a'), (1, 'b'), (2, 'c')]).Pairwise (fun a b => a.1 < b.1) :=
+  (sortBy_sorted _).2 (by simp)
+example : sortBy [((3:ℝ), 'a'), (1, 'b'), (2, 'c')] = sortBy [(1, 'b'), (2, 'c'), (3, 'a')] :=
+  sortBy_order_independent _ _ ((List.Perm.swap _ _ _).trans ((List.Perm.swap _ _ _).cons _))
+    (by simp)
+/-- 4. (continued) on-axis field, marginal pupil point (0.6, 0.8): `L² + M² = NA²` -/
+example := telecentric_na exTele 0 0 0.6 0.8 exhx rfl rfl rfl rfl
+  (by show (0:ℝ) < 0.1; norm_num) (by show (0.1:ℝ) < 1; norm_num) (by norm_num)
+  (by show vigFactor exFields 0 0 = (0, 0)
+      simpa using vigFactor_at_field exFields ⟨0, 0, 0, 0⟩ exField0 exNodup exMaxPos (by norm_num))
+/-- 3./6. a successful launch with start plane ≠ pupil plane, for each entry point -/
+example : ∃ r, generateRay exFinH 0.5 1 0.3 (-0.4) = .ok r ∧ r.z ≠ EPL exFinH.psys := by
+  obtain ⟨r, hr, -, -, hz, -⟩ := finite_object_start_and_aim_height exFinH 0.5 1 0.3 (-0.4) exhx rfl rfl rfl
+    (by rw [exFinHEPL]; show (0:ℝ) + posOf (exSurfs (-100)) 0 ≠ 0; rw [exPos0]; norm_num)
+  refine ⟨r, hr, ?_⟩
+  rw [hz, exFinHEPL]; show (0:ℝ) + posOf (exSurfs (-100)) 0 ≠ 0; rw [exPos0]; norm_num
+example : ∃ r, genericLaunch exFinH 0.5 1 0.3 (-0.4) = .ok r ∧ r.z ≠ EPL exFinH.psys := by
+  rw [genericLaunch_eq]
+  obtain ⟨r, hr, -, -, hz, -⟩ := finite_object_start_and_aim_height exFinH 0.5 1
+    (0.3 * (1 - (vigFactor exFinH.fields 0.5 1).1)) (-0.4 * (1 - (vigFactor exFinH.fields 0.5 1).2)) exhx rfl rfl rfl
+    (by rw [exFinHEPL]; show (0:ℝ) + posOf (exSurfs (-100)) 0 ≠ 0; rw [exPos0]; norm_num)
+  refine ⟨r, hr, ?_⟩
+  rw [hz, exFinHEPL]; show (0:ℝ) + posOf (exSurfs (-100)) 0 ≠ 0; rw [exPos0]; norm_num
+example : ∃ r, traceLaunch exFinH 0.5 1 0.3 (-0.4) = .ok r ∧ r.z ≠ EPL exFinH.psys := by
+  unfold traceLaunch
+  obtain ⟨r, hr, -, -, hz, -⟩ := finite_object_start_and_aim_height exFinH 0.5 1
+    (0.3 * (1 - (vigFactor exFinH.fields 0.5 1).1) * (1 - (vigFactor exFinH.fields 0.5 1).1))
+    (-0.4 * (1 - (vigFactor exFinH.fields 0.5 1).2) * (1 - (vigFactor exFinH.fields 0.5 1).2)) exhx rfl rfl rfl
+    (by rw [exFinHEPL]; show (0:ℝ) + posOf (exSurfs (-100)) 0 ≠ 0; rw [exPos0]; norm_num)
+  refine ⟨r, hr, ?_⟩
+  rw [hz, exFinHEPL]; show (0:ℝ) + posOf (exSurfs (-100)) 0 ≠ 0; rw [exPos0]; norm_num
+example : |(0.3:ℝ) * (1 - 0.1)^2| ≤ |0.3| ∧ |(0.3:ℝ) * (1 - 0.1)^3| ≤ |0.3| :=
+  ⟨vig_shrinks_twice 0.3 0.1 (by norm_num) (by norm_num), vig_shrinks_thrice 0.3 0.1 (by norm_num) (by norm_num)⟩
+/-- a field with non-zero `x` is refused -/
+example := rejected_nonsymmetric_fields ⟨exInf.psys, [⟨1, 0, 0, 0⟩], false, true, 0, 0⟩ 0 0 0 0
+  (by simp [Num.isZero, NumReal.le_decide, NumReal.fzero_eq])
+
+/-- 5. (continued) clamping beyond the edge field, e.g. `(Hx, Hy) = (0.9, 0.8)` -/
+example : vigFactor exFields 0.9 0.8 = (0.1, 0.2) :=
+  vigFactor_beyond_edge exFields ⟨0, 10, 0.1, 0.2⟩ 0.9 0.8 exField1 exNodup exMaxPos exMaxY.symm (by
+    rw [show (1:ℝ) = Real.sqrt 1 from Real.sqrt_one.symm]
+    exact Real.sqrt_le_sqrt (by norm_num))
+/-- fields `y = 5, 10` only: inside the first field its factors are used -/
+example : vigFactor ([⟨0, 5, 0.05, 0.1⟩, ⟨0, 10, 0.1, 0.2⟩] : List (FieldRec ℝ)) 0 0 = (0.05, 0.1) := by
+  have hmax : npMaxL (([⟨0, 5, 0.05, 0.1⟩, ⟨0, 10, 0.1, 0.2⟩] : List (FieldRec ℝ)).map (·.y)) = 10 := by
+    simp [npMaxL, NumReal.lt_decide]; norm_num
+  exact vigFactor_below_first [⟨0, 5, 0.05, 0.1⟩, ⟨0, 10, 0.1, 0.2⟩] ⟨0, 5, 0.05, 0.1⟩ 0 0
+    (by simp) (by simp) (by rw [hmax]; norm_num) (by simp; norm_num) (by rw [hmax]; simp; norm_num)
+example (Hx Hy : ℝ) : vigFactor [(⟨0, 0, 0.3, 0.4⟩ : FieldRec ℝ)] Hx Hy = (0.3, 0.4) :=
+  vigFactor_single_field _ Hx Hy
 
 end C03
